@@ -18,3 +18,116 @@ package webrtc
 //@ func specEdge
 //@ pure
 //@ nosafety
+
+//@ func validSignalingState
+//@ pure
+//@ nosafety
+
+//@ func pcValid
+//@ pure
+//@ nosafety
+
+//@ func specDescInv
+//@ pure
+//@ nosafety
+
+//@ func (*SignalingState).Get
+//@ props C01
+//@ inline
+//@ requires t != nil
+//@ ensures result == *t
+//@ modifies nothing
+//@ func (*SignalingState).Set
+//@ props C01
+//@ inline
+//@ requires t != nil
+//@ ensures *t == state
+//@ modifies *t
+//@ func (*PeerConnection).SignalingState
+//@ inline
+//@ func (SDPType).String
+//@ pure
+//@ func NewSDPType
+//@ pure
+
+// Assumed contract on a dependency: the logger does not write memory of this package.
+//@ func (logging.LeveledLogger).Infof
+//@ trusted
+//@ modifies nothing
+
+//@ func (*PeerConnection).onSignalingStateChange
+//@ props C01 C03
+//@ requires pcValid(pc)
+//@ ghost sigEvents += 1
+//@ modifies nothing
+
+// ---- fields set by the constructor and never reassigned ----
+//@ field PeerConnection.isClosed props C01 C02 C03 C21 C39 writers (*API).NewPeerConnection
+//@ field PeerConnection.isNegotiationNeeded props C01 C02 C03 C21 C39 writers (*API).NewPeerConnection
+//@ field PeerConnection.updateNegotiationNeededFlagOnEmptyChain props C01 C02 C03 C21 C39 writers (*API).NewPeerConnection
+//@ field PeerConnection.ops props C01 C02 C03 C21 C39 writers (*API).NewPeerConnection
+//@ field PeerConnection.api props C01 C02 C03 C21 C39 writers (*API).NewPeerConnection
+//@ field PeerConnection.log props C01 C02 C03 C21 C39 writers (*API).NewPeerConnection
+//@ field API.settingEngine props C01 C13 writers NewAPI, WithSettingEngine$1, (*API).NewPeerConnection
+//@ field API.mediaEngine props C01 writers NewAPI, WithMediaEngine$1, (*API).NewPeerConnection
+
+// ---- write-sets of the negotiation fields (C01, C02, C03) ----
+//@ field PeerConnection.signalingState props C01 C02 C03 writers (*PeerConnection).setDescription, (*PeerConnection).close, (*API).NewPeerConnection
+//@ field PeerConnection.pendingLocalDescription props C01 C02 C03 writers (*PeerConnection).setDescription$1, (*API).NewPeerConnection
+//@ field PeerConnection.pendingRemoteDescription props C01 C02 C03 writers (*PeerConnection).setDescription$1, (*API).NewPeerConnection
+//@ field PeerConnection.currentLocalDescription props C01 C02 C03 writers (*PeerConnection).setDescription$1, (*API).NewPeerConnection
+//@ field PeerConnection.currentRemoteDescription props C01 C02 C03 writers (*PeerConnection).setDescription$1, (*API).NewPeerConnection
+//@ field PeerConnection.lastOffer props C01 C02 C03 writers (*PeerConnection).CreateOffer, (*API).NewPeerConnection
+//@ field PeerConnection.lastAnswer props C01 C02 C03 writers (*PeerConnection).CreateAnswer, (*API).NewPeerConnection
+
+//@ func (*PeerConnection).setDescription
+//@ props C01 C02 C03
+//@ requires pcValid(pc) && sd != nil
+//@ requires validSignalingState(pc.signalingState) && specDescInv(pc)
+//@ observe old(pc.signalingState)
+//@ observe old(sd.Type)
+//@ ensures err == nil ==> specEdge(old(pc.signalingState), op, old(sd.Type)) != SignalingStateUnknown
+//@ ensures err == nil ==> pc.signalingState == specEdge(old(pc.signalingState), op, old(sd.Type))
+//@ ensures err != nil ==> pc.signalingState == old(pc.signalingState)
+//@ ensures err != nil ==> pc.pendingLocalDescription == old(pc.pendingLocalDescription) && pc.pendingRemoteDescription == old(pc.pendingRemoteDescription)
+//@ ensures err != nil ==> pc.currentLocalDescription == old(pc.currentLocalDescription) && pc.currentRemoteDescription == old(pc.currentRemoteDescription)
+//@ ensures err != nil ==> ghost(sigEvents) == old(ghost(sigEvents))
+//@ ensures err == nil ==> ghost(sigEvents) == old(ghost(sigEvents)) + 1
+//@ ensures specDescInv(pc)
+//@ ensures pc.lastOffer == old(pc.lastOffer) && pc.lastAnswer == old(pc.lastAnswer)
+//@ ensures err == nil && op == stateChangeOpSetLocal && (old(sd.Type) == SDPTypeOffer || old(sd.Type) == SDPTypePranswer) ==> pc.pendingLocalDescription == sd && pc.pendingRemoteDescription == old(pc.pendingRemoteDescription) && pc.currentLocalDescription == old(pc.currentLocalDescription) && pc.currentRemoteDescription == old(pc.currentRemoteDescription)
+//@ ensures err == nil && op == stateChangeOpSetRemote && (old(sd.Type) == SDPTypeOffer || old(sd.Type) == SDPTypePranswer) ==> pc.pendingRemoteDescription == sd && pc.pendingLocalDescription == old(pc.pendingLocalDescription) && pc.currentLocalDescription == old(pc.currentLocalDescription) && pc.currentRemoteDescription == old(pc.currentRemoteDescription)
+//@ ensures err == nil && op == stateChangeOpSetLocal && old(sd.Type) == SDPTypeAnswer ==> pc.currentLocalDescription == sd && pc.currentRemoteDescription == old(pc.pendingRemoteDescription) && pc.pendingLocalDescription == nil && pc.pendingRemoteDescription == nil
+//@ ensures err == nil && op == stateChangeOpSetRemote && old(sd.Type) == SDPTypeAnswer ==> pc.currentRemoteDescription == sd && pc.currentLocalDescription == old(pc.pendingLocalDescription) && pc.pendingLocalDescription == nil && pc.pendingRemoteDescription == nil
+//@ ensures err == nil && old(sd.Type) == SDPTypeRollback ==> pc.pendingLocalDescription == nil && pc.pendingRemoteDescription == nil && pc.currentLocalDescription == old(pc.currentLocalDescription) && pc.currentRemoteDescription == old(pc.currentRemoteDescription)
+
+// ---------------------------------------------------------------- C22
+//@ func specConnState
+//@ pure
+//@ nosafety
+//@ func validICEConnectionState
+//@ pure
+//@ nosafety
+//@ func validDTLSTransportState
+//@ pure
+//@ nosafety
+//@ func (*PeerConnection).ConnectionState
+//@ pure
+
+//@ func (*PeerConnection).onConnectionStateChange
+//@ props C22 C21
+//@ requires pcValid(pc)
+//@ ghost connEvents += 1
+//@ ensures pc.ConnectionState() == cs
+//@ modifies pc.connectionState
+
+//@ func (*PeerConnection).updateConnectionState
+//@ props C22 C21
+//@ requires pcValid(pc)
+//@ requires validICEConnectionState(iceConnectionState) && validDTLSTransportState(dtlsTransportState)
+//@ observe old(pc.isClosed.Load())
+//@ observe old(pc.ConnectionState())
+//@ ensures pc.ConnectionState() == specConnState(old(pc.isClosed.Load()), iceConnectionState, dtlsTransportState)
+//@ ensures old(pc.ConnectionState()) == specConnState(old(pc.isClosed.Load()), iceConnectionState, dtlsTransportState) ==> ghost(connEvents) == old(ghost(connEvents))
+//@ ensures old(pc.ConnectionState()) != specConnState(old(pc.isClosed.Load()), iceConnectionState, dtlsTransportState) ==> ghost(connEvents) == old(ghost(connEvents)) + 1
+//@ modifies pc.connectionState
